@@ -245,8 +245,9 @@ def oracle_static(S, r):
         else:
             want = g.default_to_py(d)
             if d[0] == "s" and want in ("None", g.NONE_STR) and not got:
-                fails.append(({"kind": "roundtrip", "field": "default", "from": "none-like-str", "to": "absent"},
-                              "%s: %s default %r (a str that is a none_types member) is dropped by emit" % (nm, g.render_typ(sp["typ"]), want)))
+                # at the level of the Python IR the string "None" / NoneStr *is* a spelling of None (none_types): same defect
+                fails.append(({"kind": "roundtrip", "field": "default", "from": "None", "to": "absent"},
+                              "%s: %s default %r (a str that is a none_types member, i.e. a spelling of None) is dropped by emit" % (nm, g.render_typ(sp["typ"]), want)))
             elif not got or typed(got[0]) != typed(want):
                 fails.append(({"kind": "roundtrip", "field": "default", "from": d[0], "to": "absent" if not got else "other"},
                               "%s: default %s → %s" % (nm, typed(want), typed(got[0]) if got else "absent")))
@@ -458,7 +459,6 @@ WITNESSES = [
     ("C06-single-member-literal", {"name": "F", "doc": "", "params": [["a", P(lit(["alpha"]))]], "returns": None}),
     ("C06-pattern-unanchored", {"name": "F", "doc": "", "params": [["a", P(lit(["alpha", "beta"]))]], "returns": None}),
     ("C06-none-default-dropped", {"name": "F", "doc": "", "params": [["a", P(base("int", True), None, ["n"])]], "returns": None}),
-    ("C06-none-like-str-default-dropped", {"name": "F", "doc": "", "params": [["a", P(base("str"), None, ["s", "None"])]], "returns": None}),
     ("C06-return-doc-wrapped-inside-word", {"name": "F", "doc": "", "params": [], "returns": {"typ": base("int"), "doc": "a" * 80 + " bbbbbbbb-cccccccc"}}),
 ]
 FIXED = [
